@@ -360,8 +360,8 @@ Definition step (w : world) (o : op) : world * outcome :=
       match get w ti with
       | None => (w, OutOfModel)
       | Some t =>
-          if String.eqb old new then (w, OkUnit)
-          else if negb (has_name t old) then (w, Err ValueError)
+          if negb (has_name t old) then (w, Err ValueError)
+          else if String.eqb old new then (w, OkUnit)
           else if has_name t new then (w, Err ValueError)
           else if negb ident then (w, Err ValueError)
           else (put w ti {| fam := fam t; ids := ids t;
